@@ -11,6 +11,7 @@ import (
 	"fmt"
 	"math/big"
 	"strings"
+	"time"
 
 	"github.com/btcsuite/btcd/blockchain"
 	"github.com/btcsuite/btcd/btcec/v2"
@@ -82,7 +83,7 @@ type c07Case struct {
 	LndFee    int64   `json:"lnd_fee,omitempty"`
 	NoChange  bool    `json:"no_change,omitempty"`
 	ChangeAt  int     `json:"change_at,omitempty"`  // 0: change first, 1: change last
-	FundBad   string  `json:"fund_bad,omitempty"`   // "", "script", "value", "extra"
+	FundBad   string  `json:"fund_bad,omitempty"`   // "", "script", "value", "extra", "changeidx"
 	ChangeS   string  `json:"change_s,omitempty"`   // change script hex
 	HasChV    bool    `json:"has_chv,omitempty"`    // force the change value (the wallet's fee absorbs the rest)
 	ChangeV   int64   `json:"change_v,omitempty"`
@@ -427,8 +428,9 @@ func c07Remove(have []*wire.TxOut, want []*wire.TxOut) ([]*wire.TxOut, bool) {
 // ---------------------------------------------------------------- whole operations
 
 type c07Run struct {
-	r *Run
-	e *c07Env
+	r    *Run
+	e    *c07Env
+	hung int
 }
 
 // execOp runs one whole operation through the real account manager, emits
@@ -526,6 +528,9 @@ func (x *c07Run) execOp(cs *c07Case) {
 			tx.AddTxOut(&wire.TxOut{Value: change, PkScript: chS})
 			idx = 1
 		}
+		if cs.FundBad == "changeidx" && idx >= 0 {
+			idx = 5 // a change index that designates no output
+		}
 		if cs.FundBad == "extra" {
 			tx.AddTxOut(&wire.TxOut{Value: 1000, PkScript: e.trScript})
 		}
@@ -549,7 +554,9 @@ func (x *c07Run) execOp(cs *c07Case) {
 		modA  *account.Account
 		retTx *wire.MsgTx
 	)
-	func() {
+	done := make(chan struct{})
+	go func() {
+		defer close(done)
 		defer func() { pan = recover() }()
 		switch cs.Kind {
 		case "withdraw":
@@ -572,6 +579,15 @@ func (x *c07Run) execOp(cs *c07Case) {
 			retTx, err = mgr.CloseAccount(ctx, e.traderKey, fe, cs.Best)
 		}
 	}()
+	select {
+	case <-done:
+	case <-time.After(10 * time.Second):
+		// the operation blocks: report it and never touch the (still shared) world again
+		x.hung++
+		r.Count("oracle/hung")
+		r.Violate(cs.Kind+": the operation did not return within 10 s", "C07/hung", cs)
+		return
+	}
 	_ = modA
 
 	// ---- op line for the model -------------------------------------------
@@ -617,6 +633,11 @@ func (x *c07Run) execOp(cs *c07Case) {
 		res = "err:" + c07ErrClass(err)
 	}
 	out := res + " trace=" + e.fmtTrace(orig, w.events)
+	locks := w.lockOutcome()
+	if cs.Kind == "deposit" {
+		out += " locks=" + locks
+		r.Count("deposit/locks/" + strings.SplitN(locks, ":", 2)[0])
+	}
 	r.Emit(line, out)
 	r.Evaluations++
 	r.Count("op/" + cs.Kind)
@@ -679,11 +700,16 @@ func (x *c07Run) execOp(cs *c07Case) {
 				viol("refusal (" + cls + ") changed the stored account")
 			}
 		}
-		if cs.Kind == "deposit" && funded.called && funded.outs != nil && len(cs.FundIns) > 0 && w.released == 0 {
-			// informational only: lnd lock release uses the lease list, which the mock leaves empty
-			r.Count("deposit/refused-after-funding")
+		// a refused deposit must not keep the wallet inputs it leased
+		if cs.Kind == "deposit" && len(w.leases) > 0 && !strings.HasPrefix(locks, "released:") {
+			r.Count("oracle/locks")
+			r.Violate(fmt.Sprintf("deposit refused (%s) but the %d leased wallet inputs were not all released: %s",
+				cls, len(w.leases), locks), "C07/leaked-locks", cs)
 		}
 		return
+	}
+	if cs.Kind == "deposit" && len(w.releases) != 0 {
+		viol("accepted deposit released wallet input leases: " + locks)
 	}
 
 	// success
@@ -1142,6 +1168,9 @@ func runC07(r *Run) {
 		if json.Unmarshal(raw, &cs) != nil || cs.Kind == "" {
 			continue
 		}
+		if x.hung >= 3 {
+			break
+		}
 		r.Count("case/fixed")
 		run(&cs)
 	}
@@ -1154,6 +1183,10 @@ func runC07(r *Run) {
 	}
 	g := &c07Gen{r: r, e: x.e}
 	for c := 0; c < r.N; c++ {
+		if len(r.Violations) >= 20 || x.hung >= 3 {
+			r.Notes = append(r.Notes, fmt.Sprintf("stopped after %d cases: %d violations, %d hung operations", c, len(r.Violations), x.hung))
+			break
+		}
 		run(g.genOp())
 		for i := 0; i < 4; i++ {
 			run(g.genPure())
